@@ -762,10 +762,28 @@ def _block_symmetry(prog, rep):
     n = 0
     for m in MV.methods.values():
         news = [c for c in calls(m.node) if (dotted(c.func) or "").endswith("__new__")]
-        if not news or m.name == "__init__":
+        if m.name == "__init__":
             continue
         for st in walk_local(m.node, include_self=False):
             if not (isinstance(st, ast.Assign) and isinstance(st.targets[0], ast.Attribute) and st.targets[0].attr == "symmetric"):
+                continue
+            if not news:
+                # the flag set on a view after it was built (block.symmetric = ...)
+                v = st.value
+                if isinstance(v, ast.Constant) and v.value is False:
+                    continue
+                n += 1
+                whole = any(k in m.name.lower() for k in ("transpose", "copy")) or m.name == "T"
+                if whole and isinstance(v, ast.Attribute) and v.attr == "symmetric":
+                    continue
+                full = all(any(k in src(v) for k in (f"{a}.start", f"{a}.stop", f"{a}.step")) for a in ("row_key", "col_key")) and sum(src(v).count(k) for k in (".start", ".stop", ".step")) >= 6
+                if m.name == "__getitem__" and not full and not (isinstance(v, ast.Compare) and src(v.left) in ("row_key",) and src(v.comparators[0]) == "col_key"):
+                    rep.ob("R11.4", f"MatrixVariable.{m.name}", False,
+                           f"a block view gets symmetric=`{src(v)[:70]}`: that does not compare the whole row selection with the whole column selection (start, stop and step), so a block such as S[0:2, 0:4:2] or S[::-1, :] "
+                           f"is flagged symmetric although its cells [i][j] and [j][i] hold different variables -- get_variables() then lists only its upper triangle",
+                           loc=f"{m.module.rel}:{st.lineno}", detail="block-symmetry", robust=True)
+                else:
+                    rep.undecided(f"MatrixVariable.{m.name}: the symmetric flag of a view is set to `{src(v)[:50]}`; whether that holds only for principal blocks is not decided")
                 continue
             n += 1
             v = st.value
